@@ -47,9 +47,11 @@ def make_synthetic(d, seed, n_chr):
 
 
 class Config:
-    def __init__(self, name, data, genedb=True, groups=None, keep_tmp=False, threads=None, seed=0, n_chr=1, pooled=False, glob_order=None):
+    def __init__(self, name, data, genedb=True, groups=None, keep_tmp=False, threads=None, seed=0, n_chr=1, pooled=False, glob_order=None, reuse=False):
         self.name, self.data, self.genedb, self.groups, self.keep_tmp, self.threads, self.seed, self.n_chr = name, data, genedb, groups, keep_tmp, threads, seed, n_chr
         self.glob_order = glob_order      # order in which glob.glob lists the temporary files for the clean-up (None: lexicographic)
+        self.reuse = reuse                # the run under test is `--read_assignments <saves of an earlier --keep_tmp run>`; every run gets its own copy of the saves
+        self.sample = PREFIX + "0" if reuse else PREFIX          # name of the sample directory and of the output files
         self.pooled = pooled      # several chromosomes on several worker processes: the interleaving is not deterministic, no model correspondence
 
     def prepare(self, root):
@@ -59,11 +61,21 @@ class Config:
         self.chr_names = sorted(L.keys(), key=lambda x: L[x], reverse=True)              # DatasetProcessor.get_chr_list
         import pysam
         with pysam.AlignmentFile(os.path.join(self.src, self.files["bam"]), "rb") as bf: self.bam_refs = list(bf.references)
+        if self.reuse:                    # the saving run: same options, --bam, --keep_tmp (unwrapped, private HOME)
+            keep = os.path.join(root, "saving_run_" + self.name)
+            a = ["--reference", os.path.join(self.src, self.files["fasta"])] + (["--genedb", os.path.join(self.src, self.files["gtf"]), "--complete_genedb"] if self.genedb else []) + \
+                ["--bam", os.path.join(self.src, self.files["bam"]), "--data_type", "nanopore", "-p", PREFIX, "--keep_tmp"] + (["--threads", str(self.threads)] if self.threads else [])
+            rc, log = P.run_isoquant(keep, a)
+            if rc != 0: raise RuntimeError("the saving --keep_tmp run failed: " + log[-800:])
+            self.saves_src = os.path.join(root, "saves_" + self.name); shutil.copytree(os.path.join(keep, PREFIX, "aux"), self.saves_src)
+            for f in os.listdir(self.src):            # index files written next to the reference by the saving run: keep the inputs pristine
+                if f.endswith((".fai", ".gzi")): os.remove(os.path.join(self.src, f))
+            shutil.rmtree(keep, ignore_errors=True); shutil.rmtree(os.path.join(root, "home_saving_run_" + self.name), ignore_errors=True)
 
     def args(self, d):
         a = ["--reference", os.path.join(d, self.files["fasta"])]
         if self.genedb: a += ["--genedb", os.path.join(d, self.files["gtf"]), "--complete_genedb"]
-        a += ["--bam", os.path.join(d, self.files["bam"]), "--data_type", "nanopore", "-p", PREFIX]
+        a += (["--read_assignments", os.path.join(os.path.dirname(d), "saves", PREFIX + ".save")] if self.reuse else ["--bam", os.path.join(d, self.files["bam"])]) + ["--data_type", "nanopore", "-p", PREFIX]
         if self.groups == "file": a += ["--read_group", "file:" + os.path.join(d, self.files["groups"])]
         elif self.groups == "tag": a += ["--read_group", "tag:RG"]
         if self.keep_tmp: a.append("--keep_tmp")
@@ -72,7 +84,8 @@ class Config:
 
     def describe(self):
         return dict(config=self.name, data=self.data if self.data == "bundled" else "gen_data.World(seed=%d, n_chr=%d)" % (self.seed, self.n_chr), genedb=self.genedb,
-                    read_group=self.groups, keep_tmp=self.keep_tmp, threads=self.threads or "default", glob_order=self.glob_order or "sorted")
+                    read_group=self.groups, keep_tmp=self.keep_tmp, threads=self.threads or "default", glob_order=self.glob_order or "sorted",
+                    mode="--read_assignments <private copy of aux/OUT.save* of a --keep_tmp run with the same options>" if self.reuse else "--bam")
 
     # ---- the output layout of this configuration (ReadAssignmentAggregator / GFFPrinter / merge_* in source order) ----
     def layout(self):
@@ -115,11 +128,13 @@ class Config:
 # ------------------------------------------------------------------ names: real path -> fname term of the model
 class Names:
     def __init__(self, cfg, d):
-        self.cfg = cfg; out = os.path.join(d, "out"); sd = os.path.join(out, PREFIX); aux = os.path.join(sd, "aux")
+        S = cfg.sample
+        self.cfg = cfg; out = os.path.join(d, "out"); sd = os.path.join(out, S); aux = os.path.join(sd, "aux")
         self.sample_dir = sd; self.kinds = cfg.layout()[0]
         m = {}
         chrs = cfg.chr_names; self.cidx = {c: i for i, c in enumerate(chrs)}
-        save = os.path.join(aux, PREFIX + ".save"); rg = os.path.join(aux, PREFIX + ".read_group")
+        # with --read_assignments the save files and everything named after them live next to the supplied prefix
+        save = os.path.join(d, "saves", PREFIX + ".save") if cfg.reuse else os.path.join(aux, S + ".save"); rg = os.path.join(aux, S + ".read_group")
         m[rg + "_lock"] = "RGLock"; m[save + "_info"] = "Info"; m[save + "_lock"] = "SaveLock"
         self.rg_ids = []
         for j, r in enumerate(cfg.bam_refs):
@@ -131,10 +146,10 @@ class Names:
                 m.setdefault("%s_%s%s" % (save, c, suf), "(%s %d)" % (con, i))
             m.setdefault("%s_multimappers_%s" % (save, c), "(Multi %d)" % i)
             for k, suf in enumerate(self.kinds):
-                m.setdefault(os.path.join(sd, "%s_%s.%s" % (PREFIX, c, suf)), "(Part %d %d)" % (k, i))
+                m.setdefault(os.path.join(sd, "%s_%s.%s" % (S, c, suf)), "(Part %d %d)" % (k, i))
         for k, suf in enumerate(self.kinds):
-            m[os.path.join(sd, "%s.%s" % (PREFIX, suf))] = "(Final %d)" % k
-            m[os.path.join(sd, "%s.%s.gz" % (PREFIX, suf))] = "(Final %d)" % k
+            m[os.path.join(sd, "%s.%s" % (S, suf))] = "(Final %d)" % k
+            m[os.path.join(sd, "%s.%s.gz" % (S, suf))] = "(Final %d)" % k
         self.m = m; self.ext = {}; self.d = d
 
     def term(self, path):
@@ -185,10 +200,10 @@ def coq_cfg(cfg, names, ticks, variant):
         else: break
     cleanup.reverse()
     L = lambda l: clist(l) if l else "[]"
-    return "(mkcfg %s %s %s %s %s %s %s %s %s %s %s %s %s)" % (
+    return "(mkcfg %s %s %s %s %s %s %s %s %s %s %s %s %s %s)" % (
         L(["%d" % x for x in setup]), L(["%d" % r for r in names.rg_ids] if cfg.groups == "file" else []), cbool(cfg.groups == "file"),
         L(["%d" % i for i in range(len(cfg.chr_names))]), L(["%d" % i for i in names.merge_order()]),
-        L(creation), L(dumps), L(merges), cbool(models), cbool(cfg.keep_tmp), "(%s : list fname)" % L(cleanup), cbool(variant["fix_close"]), cbool(variant["fix_proc"])), cleanup
+        L(creation), L(dumps), L(merges), cbool(models), cbool(cfg.keep_tmp), "(%s : list fname)" % L([] if cfg.reuse else cleanup), cbool(variant["fix_close"]), cbool(variant["fix_proc"]), cbool(cfg.reuse)), cleanup
 
 
 def detect_variant(ticks):
@@ -208,9 +223,9 @@ def read_trace(path):
     return [json.loads(l) for l in open(path)] if os.path.exists(path) else []
 
 
-def finals(outdir):
-    """name -> digest of the content without the command-line header (gz files decompressed); also the listing of aux/"""
-    d = os.path.join(outdir, PREFIX); res = {}
+def finals(outdir, sample=PREFIX):
+    """name -> digest of the content without the command-line header (gz files decompressed)"""
+    d = os.path.join(outdir, sample); res = {}
     if not os.path.isdir(d): return res
     for f in sorted(os.listdir(d)):
         p = os.path.join(d, f)
@@ -237,8 +252,9 @@ def invoke(cfg, d, env, resume=False):
 def clean_run(cfg, root, env):
     d = os.path.join(root, "clean_" + cfg.name); os.makedirs(d)
     shutil.copytree(cfg.src, os.path.join(d, "data"))
+    if cfg.reuse: shutil.copytree(cfg.saves_src, os.path.join(d, "saves"))
     rc, log = invoke(cfg, d, env)
-    tr = read_trace(os.path.join(d, "run.trace")); fin = finals(os.path.join(d, "out"))
+    tr = read_trace(os.path.join(d, "run.trace")); fin = finals(os.path.join(d, "out"), cfg.sample)
     return rc, log, tr, fin, d
 
 
@@ -246,11 +262,12 @@ def crash_point(cfg, root, env, k, when, clean_finals):
     d = os.path.join(root, "%s_%d_%s" % (cfg.name, k, when)); os.makedirs(d)
     try:
         shutil.copytree(cfg.src, os.path.join(d, "data"))
+        if cfg.reuse: shutil.copytree(cfg.saves_src, os.path.join(d, "saves"))
         rc1, log1 = invoke(cfg, d, dict(env, C07_CRASH_AT=str(k), C07_CRASH_WHEN=when))
         ctr = read_trace(os.path.join(d, "run.trace")); ntr = len(ctr)
         prefix = convert_trace(ctr, Names(cfg, d)) if cfg.pooled else None
         rc2, log2 = invoke(cfg, d, env, resume=True)
-        fin = finals(os.path.join(d, "out"))
+        fin = finals(os.path.join(d, "out"), cfg.sample)
         # per-chromosome parts left behind are no final outputs; everything the clean run produced must be there and equal
         diff = sorted(f for f in clean_finals if fin.get(f) != clean_finals[f])
         extra = sorted(f for f in fin if f not in clean_finals)
@@ -285,25 +302,38 @@ def classify_failure(executed, last):
     return None
 
 
+def is_lockish(t): return t[1] in ("RGLock", "SaveLock") or t[1].startswith(("(Collected", "(Processed"))
+
+
 def sample_points(ticks, first, quota, rnd, modelled_after):
-    """all points when they fit the quota, otherwise: every lock creation / removal and its neighbours, the borders of the merge and clean-up phases, random others"""
+    """all points when they fit the quota; otherwise ALWAYS: right after every lock creation, right before and after the first removal of a
+       per-chromosome file, a few points spread over the merge phase (some parts merged and removed, others not), the first and the last removal
+       of the clean-up; then the neighbourhood of lock creations / removals and phase borders, then random others"""
     n = len(ticks); allp = [(k, w) for k in range(first, n + 1) for w in ("before", "after") if w == "before" or modelled_after(k)]
     if len(allp) <= quota: return allp
-    hot = set()
+    must = set(); hot = set()
+    part_rm = [i + 1 for i, t in enumerate(ticks) if t[0] == 2 and t[1].startswith("(Part")]
     for i, t in enumerate(ticks):
         k = i + 1
-        lockish = t[1] in ("RGLock", "SaveLock", "Info") or t[1].startswith(("(Collected", "(Processed"))
-        if lockish or (t[0] == 2 and (i == 0 or ticks[i - 1][0] != 2)) or (t[0] != 2 and i > 0 and ticks[i - 1][0] == 2):
+        if t[0] == 0 and is_lockish(t): must.add((k, "after"))
+        if is_lockish(t) or t[1] == "Info" or (t[0] == 2 and (i == 0 or ticks[i - 1][0] != 2)) or (t[0] != 2 and i > 0 and ticks[i - 1][0] == 2):
             hot.update([k - 1, k, k + 1])
-    hotp = [p for p in allp if p[0] in hot]
-    rnd.shuffle(hotp); hotp = hotp[:max(quota * 2 // 3, 1)]
-    rest = [p for p in allp if p not in set(hotp)]; rnd.shuffle(rest)
-    return sorted(hotp + rest[:max(quota - len(hotp), 0)])
+    if part_rm:
+        a, b = part_rm[0], part_rm[-1]
+        must.update([(a, "before"), (a, "after"), (a + 1, "before"), (b, "before"), (b, "after")])
+        must.update(((a + (b - a) * j // 4), "before") for j in (1, 2, 3))
+    aux_rm = [i + 1 for i, t in enumerate(ticks) if t[0] == 2 and not t[1].startswith(("(Part", "(Ext"))]
+    if aux_rm: must.update([(aux_rm[0], "after"), (aux_rm[-1], "before")])
+    must = [p for p in allp if p in must]
+    hotp = [p for p in allp if p[0] in hot and p not in set(must)]
+    rnd.shuffle(hotp); hotp = hotp[:max((quota - len(must)) * 2 // 3, 0)]
+    rest = [p for p in allp if p not in set(hotp) and p not in set(must)]; rnd.shuffle(rest)
+    return sorted(must + hotp + rest[:max(quota - len(must) - len(hotp), 0)])
 
 
 PRE = r"""From IQ Require Import Resume ResumeProgram.
 Open Scope N_scope.
-Definition dflt := mkcfg [] [] false [] [] [] [] [] false false [] false false.
+Definition dflt := mkcfg [] [] false [] [] [] [] [] false false [] false false false.
 Definition cfgs : list cfg := [
 CFGS].
 Definition the (i:nat) := nth i cfgs dflt.
@@ -333,10 +363,13 @@ def configs(ctx, quick):
           Config("syn2_tag_keep_tmp", "syn", groups="tag", keep_tmp=True, threads=1, seed=ctx.seed + 11, n_chr=2),
           Config("syn3_pool", "syn", groups="file", threads=3, seed=ctx.seed + 6, n_chr=3, pooled=True),
           Config("bundled_glob_reverse", "bundled", glob_order="reverse"),
-          Config("syn2_glob_locks_last", "syn", groups="file", threads=1, seed=ctx.seed + 11, n_chr=2, glob_order="locks_last")]
+          Config("syn2_glob_locks_last", "syn", groups="file", threads=1, seed=ctx.seed + 11, n_chr=2, glob_order="locks_last"),
+          Config("bundled_reuse", "bundled", reuse=True),
+          Config("syn3_reuse", "syn", threads=1, seed=ctx.seed + 6, n_chr=3, reuse=True)]
     quota = {"bundled": 10 ** 6, "bundled_groups": 24 if quick else 10 ** 6, "bundled_keep_tmp": 16 if quick else 10 ** 6, "bundled_no_annotation": 16 if quick else 10 ** 6,
              "syn3_groups": 60 if quick else 10 ** 6, "syn2_tag_keep_tmp": 24 if quick else 10 ** 6, "syn3_pool": 16 if quick else 160,
-             "bundled_glob_reverse": 16 if quick else 10 ** 6, "syn2_glob_locks_last": 16 if quick else 10 ** 6}
+             "bundled_glob_reverse": 16 if quick else 10 ** 6, "syn2_glob_locks_last": 16 if quick else 10 ** 6,
+             "bundled_reuse": 30 if quick else 10 ** 6, "syn3_reuse": 24 if quick else 10 ** 6}
     return cs, quota
 
 
@@ -381,7 +414,8 @@ def run(ctx, only=None):
         bad_cfg = set(o["config"] for o in mism)
         ctx.rule("clean runs of the real pipeline under harness/c07_wrapper.py (mutation = open in a writing mode incl. gzip, os.remove, rename/replace, mkdir, shutil.move/copy; glob order fixed to "
                  "'sorted', for two configurations to reverse order / locks last): bundled chr9 data (default, --read_group file:, --keep_tmp, without --genedb; 16 threads) and gen_data.World genomes with "
-                 "3 and 2 chromosomes (--threads 1, read groups from a file / from the RG tag, --keep_tmp); the logged sequence (operation kind, file, set of files open for writing at that moment) must be `ticks cfg`, the model's program for that "
+                 "3 and 2 chromosomes (--threads 1, read groups from a file / from the RG tag, --keep_tmp), and for both data sets a run started with --read_assignments on a private copy of the saves of a "
+                 "--keep_tmp run (its _processed locks and stage-2 statistics live next to the SUPPLIED prefix; no collection, no clean-up); the logged sequence (operation kind, file, set of files open for writing at that moment) must be `ticks cfg`, the model's program for that "
                  "chromosome list and output layout, and the clean-up list must be exactly the auxiliary files the model leaves")
 
         # ---- fault enumeration
@@ -448,7 +482,8 @@ def run(ctx, only=None):
         ctx.rule("fault enumeration: the wrapper kills the whole process group (SIGKILL: no flush, no destructor) before the k-th mutation, or right after it for mutations inside the sample directory; "
                  "`isoquant.py --resume` then runs in the same output directory with the same HOME; every final file of the clean run is compared byte for byte (gz decompressed, the '# Command line' "
                  "header ignored); outcome in {identical, fails (exit code != 0), different}; EVERY point of the bundled run, sampled points (all lock creations/removals, phase borders, random) of the other "
-                 "configurations in the quick tier and all of them in the thorough tier; the model must predict every outcome, 'different' is always a violation, 'fails' is keyed by the window "
+                 "configurations in the quick tier (always: right after every lock creation, around the first part removal, points spread over the merge phase, the borders of the clean-up) and all of them in "
+                 "the thorough tier; the enumeration also runs for a configuration whose clean trace is not the model's program (then the real outcome alone decides); the model must predict every outcome, 'different' is always a violation, 'fails' is keyed by the window "
                  "computed from the mutations executed before the kill; plus a 3-chromosome run on 3 worker processes (kills inside workers; the interleaving differs from run to run, so no model "
                  "prediction: outcomes are classified from the crashed run's own logged prefix)")
         ctx.assume.append("the kill is a SIGKILL of the process group: data already handed to the OS (closed or flushed files) survives, buffered data is lost; the file system itself is not crashed "
